@@ -8,20 +8,20 @@ def uw(tot):
 OPT = "protect_windows/protect_hfs/protect_ntfs: all 8 combinations; symlink or not"
 hs = []
 for n in (1, 2, 3, 4, 5, 6):
-    hs.append(H(P + "c40_component_%d" % n, tier="quick" if n <= 4 else "thorough", timeout=900 if n <= 4 else 2400, mem=10 if n <= 4 else 16, covers=2, thorough_timeout=2400, unwindset=uw(n),
+    hs.append(H(P + "c40_component_%d" % n, tier="quick" if n <= 4 else "thorough", timeout=900 if n <= 4 else 2400, mem=8 if n <= 4 else 16, covers=2, thorough_timeout=2400, unwindset=uw(n),
                 desc="git's verify_path refuses the component => path::component() refuses it", inputs="all ASCII components of %d bytes without '/', except '.' and '..'; %s" % (n, OPT), bound="unwind 14"))
 for name, what, tot in [("dotgit_t3", "'.git' (any case) + 3 arbitrary ASCII bytes", 7), ("git1_t2", "'git~1' (any case) + 2 arbitrary ASCII bytes", 7),
                    ("gitmod_t3", "'gitmod~' (any case) + 3 arbitrary ASCII bytes", 10),
 ]:
     q = name in ("dotgit_t3", "git1_t2")
-    hs.append(H(P + "c40_" + name, tier="quick" if q else "thorough", timeout=900 if q else 2400, mem=10 if q else 24, covers=2, unwindset=uw(tot), desc="git refuses => gitoxide refuses, around the spelled-out names", inputs=what + "; " + OPT, bound="unwind 16"))
-hs.append(H(P + "c40_known_backslash_unix", timeout=900, mem=10, covers=0, expect="known_finding", finding="C40-F12", unwindset=uw(6),
+    hs.append(H(P + "c40_" + name, tier="quick" if q else "thorough", timeout=900 if q else 2400, mem=8 if q else 24, covers=2, unwindset=uw(tot), desc="git refuses => gitoxide refuses, around the spelled-out names", inputs=what + "; " + OPT, bound="unwind 16"))
+hs.append(H(P + "c40_known_backslash_unix", timeout=900, mem=9, covers=0, expect="known_finding", finding="C40-F12", unwindset=uw(6),
             desc="components containing a backslash, protect_ntfs on, protect_windows off", inputs="6 arbitrary ASCII bytes with at least one backslash", bound="unwind 16"))
 for pos in (2, 4):
-    hs.append(H(P + "c40_hfs_simple_p%d" % pos, timeout=900, mem=10, covers=2, unwindset=uw(7),
+    hs.append(H(P + "c40_hfs_simple_p%d" % pos, timeout=900, mem=8, covers=2, unwindset=uw(7),
                 desc="'.git' with one HFS-ignorable code point inserted: git refuses => gitoxide refuses", inputs="insertion position %d; code point: symbolic choice among the 16; %s" % (pos, OPT), bound="unwind 18"))
 for name in ("con", "prn", "aux", "nul", "com", "lpt", "conin", "conout"):
-    hs.append(H(P + "c40_dev_" + name, tier="quick" if name in ("con", "com") else "thorough", timeout=900, mem=10, covers=2, unwindset=uw(9), desc="Windows device name (any case, digit 1-9 where applicable) + tail is refused with Windows protections on",
+    hs.append(H(P + "c40_dev_" + name, tier="quick" if name in ("con", "com") else "thorough", timeout=900, mem=9, covers=2, unwindset=uw(9), desc="Windows device name (any case, digit 1-9 where applicable) + tail is refused with Windows protections on",
                 inputs="name '%s' + 2-3 arbitrary ASCII tail bytes" % name, bound="unwind 14"))
 
 SPEC = {
